@@ -115,7 +115,18 @@ def rule_argument_layout(ctx, R="C15.layout"):
                         orders.append((ch, chain + [ast.unparse(g.iter) for g in ch.value.generators]))
                     visit(ch, chain)
             visit(f.node, [])
+            # a loop may run over a local that names the window's factors / width: expand single-assignment locals once
+            local_defs = {}
+            for st in statements(f.node):
+                if isinstance(st, ast.Assign) and len(st.targets) == 1 and isinstance(st.targets[0], ast.Name):
+                    local_defs.setdefault(st.targets[0].id, []).append(ast.unparse(st.value))
+
+            def expand(t):
+                import re as _re
+                return _re.sub(r"\b([A-Za-z_][A-Za-z0-9_]*)\b", lambda m: local_defs[m.group(1)][0] if len(local_defs.get(m.group(1), [])) == 1 and
+                               ("factors" in local_defs[m.group(1)][0] or "width" in local_defs[m.group(1)][0]) else m.group(1), t)
             for node, chain in orders:
+                chain = [expand(t) for t in chain]
                 fi = [i for i, t in enumerate(chain) if t.endswith(".factors") or ".factors)" in t]
                 wi = [i for i, t in enumerate(chain) if t.startswith("range(") and "width" in t]
                 if not fi or not wi:
@@ -183,7 +194,7 @@ def check(ctx):
     use1 = [x for x in Fg.stmts if isinstance(x, ast.Assign) and dotted(x.targets[0]) == "result"]
     use2 = [x for x in Fg.stmts if isinstance(x, ast.Expr) and "block.errors.add" in ast.unparse(x) and "args" in [n.id for n in ast.walk(x) if isinstance(n, ast.Name)]]
     forms = [str(Fg.at(x, ast.Name(id="args", ctx=ast.Load()))) for x in use1 + use2]
-    ctx.check(len(use1) == 1 and len(use2) == 1 and len(set(forms)) == 1 and forms[0].startswith("ite((1 != level.window.width), list(chunk_dict(") , R, f, "argument shaping",
+    ctx.check(len(use1) == 1 and len(use2) == 1 and len(set(forms)) == 1 and forms[0].startswith("ite((1 == level.window.width), [") and ", list(chunk_dict(" in forms[0] , R, f, "argument shaping",
               "windows wider than 1 are passed as per-position dictionaries, in evaluation and in the report", "argument shaping (chunk_dict when width != 1) differs between evaluation and report or changed: %s" % forms)
 
     # ---- fatal convention
@@ -229,7 +240,9 @@ def check(ctx):
     sel = ctx.fn("primitive:DerivedFactor.select_level_for_sample")
     Fsl = Facts(sel)
     ctx.check(Fsl.assigns("args") == ["self.levels[0]._trial_arguments(sample, i, sustain_count)"] and "RuntimeError" in "".join(Fsl.raises()) and
-              [ast.unparse(s.test) for s in statements(sel.node) if isinstance(s, ast.If)] == ["l.window.predicate(*args)"], R, sel, "level selection",
+              [ast.unparse(s.test) for s in statements(sel.node) if isinstance(s, ast.If)] == [
+                  "%s.window.predicate(*args)" % lp.target.id for lp in statements(sel.node) if isinstance(lp, ast.For) and isinstance(lp.target, ast.Name) and
+                  ast.unparse(lp.iter) == "self.levels" and any(isinstance(r_, ast.Return) and dotted(r_.value) == lp.target.id for r_ in ast.walk(lp))], R, sel, "level selection",
               "the combinatoric filler picks the level whose predicate accepts the trial's window (error if none)", "select_level_for_sample changed")
     ai = ctx.fn("block:Block.add_implied_levels")
     Fi = Facts(ai)
@@ -327,9 +340,18 @@ def check(ctx):
             if not (isinstance(x, ast.Subscript) and isinstance(x.ctx, ast.Load) and isinstance(x.value, ast.Subscript) and dotted(x.value.value) == "results"):
                 continue
             idx = x.slice
-            if not any(isinstance(n_, ast.BinOp) for n_ in ast.walk(idx)):
+            comp_bound = {n_.id for c_ in ast.walk(st) if isinstance(c_, (ast.ListComp, ast.DictComp, ast.GeneratorExp, ast.SetComp)) and any(y is x for y in ast.walk(c_))
+                          for g_ in c_.generators for n_ in ast.walk(g_.target) if isinstance(n_, ast.Name)}
+            if not any(isinstance(n_, ast.BinOp) for n_ in ast.walk(idx)) and not (isinstance(idx, ast.Name) and idx.id in comp_bound):
                 continue                 # the current trial itself
             n_reads += 1
+            if isinstance(idx, ast.Name) and idx.id in comp_bound:
+                # a position drawn from a list of window positions: guarded by the conditional expression it sits in
+                guarded = any(isinstance(c_, ast.IfExp) and any(y is x for y in ast.walk(c_.body)) and ("(0 <= %s)" % idx.id) in cond_literals(c_.test, True)
+                              for c_ in ast.walk(st))
+                ctx.check(guarded, R, ai, "implied window read results[..][%s]" % idx.id, "a window position before the first trial is not read (it is None)",
+                          "add_implied_levels reads results[..][%s] for every window position, negative ones included" % idx.id, st)
+                continue
             nf = str(Fai.at(st, idx))
             conds = Fai.conds(st)
             # a comprehension filter on the same index counts as a guard as well
